@@ -1363,14 +1363,21 @@ struct FontSpec {
 }
 
 fn build_var_font(f: &FontSpec) -> Result<Vec<u8>, String> {
+    build_var_font_with(f, None)
+}
+
+/// `on`: on-curve flag per point (all on-curve when absent)
+fn build_var_font_with(f: &FontSpec, on: Option<&[bool]>) -> Result<Vec<u8>, String> {
     let g = &f.glyph;
     let mut contours = vec![];
     let mut start = 0;
     for &e in &g.ends {
         contours.push(Contour::from(
-            g.coords[start..=e]
-                .iter()
-                .map(|p| read_fonts::tables::glyf::CurvePoint::new(p.0 as i16, p.1 as i16, true))
+            (start..=e)
+                .map(|i| {
+                    let p = g.coords[i];
+                    read_fonts::tables::glyf::CurvePoint::new(p.0 as i16, p.1 as i16, on.map_or(true, |o| o[i]))
+                })
                 .collect::<Vec<_>>(),
         ));
         start = e + 1;
@@ -1890,6 +1897,374 @@ fn tent_family(run: &Run) {
         }
     }
     run.sample(json!({"kind":"tent","region":region_json(&vec![(ONE / 2, Some((ONE / 4, 3 * (ONE / 4)))), (-ONE, None)])}));
+}
+
+// ---------------------------------------------------------------------------
+// (c5) contours with off-curve points: start rule x sparse tuples
+// ---------------------------------------------------------------------------
+
+#[derive(Clone, Copy, Debug)]
+enum PEl {
+    M(f64, f64),
+    L(f64, f64),
+    Q(f64, f64, f64, f64),
+    C,
+    Z,
+}
+#[derive(Default)]
+struct PathPen(Vec<PEl>);
+impl OutlinePen for PathPen {
+    fn move_to(&mut self, x: f32, y: f32) {
+        self.0.push(PEl::M(x as f64, y as f64));
+    }
+    fn line_to(&mut self, x: f32, y: f32) {
+        self.0.push(PEl::L(x as f64, y as f64));
+    }
+    fn quad_to(&mut self, a: f32, b: f32, x: f32, y: f32) {
+        self.0.push(PEl::Q(a as f64, b as f64, x as f64, y as f64));
+    }
+    fn curve_to(&mut self, _: f32, _: f32, _: f32, _: f32, _: f32, _: f32) {
+        self.0.push(PEl::C);
+    }
+    fn close(&mut self) {
+        self.0.push(PEl::Z);
+    }
+}
+
+#[derive(Clone, Copy, Debug)]
+enum Sg {
+    L([f64; 4]),
+    Q([f64; 6]),
+}
+
+/// drawn elements -> per contour cyclic segment list (closing line added when needed, zero-length lines
+/// dropped); None for a malformed stream
+fn drawn_segments(els: &[PEl]) -> Option<Vec<Vec<Sg>>> {
+    let mut out = vec![];
+    let mut cur: Vec<Sg> = vec![];
+    let (mut start, mut at, mut open) = ((0.0, 0.0), (0.0, 0.0), false);
+    let close = |cur: &mut Vec<Sg>, out: &mut Vec<Vec<Sg>>, at: (f64, f64), start: (f64, f64)| {
+        if at != start {
+            cur.push(Sg::L([at.0, at.1, start.0, start.1]));
+        }
+        out.push(std::mem::take(cur));
+    };
+    for e in els {
+        match *e {
+            PEl::M(x, y) => {
+                if open {
+                    close(&mut cur, &mut out, at, start);
+                }
+                start = (x, y);
+                at = start;
+                open = true;
+            }
+            PEl::L(x, y) => {
+                if !open {
+                    return None;
+                }
+                if (x, y) != at {
+                    cur.push(Sg::L([at.0, at.1, x, y]));
+                }
+                at = (x, y);
+            }
+            PEl::Q(a, b, x, y) => {
+                if !open {
+                    return None;
+                }
+                cur.push(Sg::Q([at.0, at.1, a, b, x, y]));
+                at = (x, y);
+            }
+            PEl::C => return None,
+            PEl::Z => {
+                if open {
+                    close(&mut cur, &mut out, at, start);
+                    open = false;
+                }
+            }
+        }
+    }
+    if open {
+        close(&mut cur, &mut out, at, start);
+    }
+    Some(out)
+}
+
+/// TrueType contour -> cyclic segment list, from the ORIGINAL on/off flags: implied on-curve points
+/// between two off-curve points, then lines between on-curve neighbours and quads around each off-curve.
+fn model_segments(pts: &[(f64, f64)], on: &[bool]) -> Vec<Sg> {
+    let n = pts.len();
+    let mut anchors: Vec<((f64, f64), bool)> = vec![];
+    for i in 0..n {
+        anchors.push((pts[i], on[i]));
+        let j = (i + 1) % n;
+        if !on[i] && !on[j] && n > 1 {
+            anchors.push((((pts[i].0 + pts[j].0) / 2.0, (pts[i].1 + pts[j].1) / 2.0), true));
+        }
+    }
+    let m = anchors.len();
+    let Some(first_on) = anchors.iter().position(|a| a.1) else {
+        return vec![];
+    };
+    let mut segs = vec![];
+    let mut i = 0;
+    while i < m {
+        let a = anchors[(first_on + i) % m];
+        let b = anchors[(first_on + i + 1) % m];
+        if b.1 {
+            if a.0 != b.0 {
+                segs.push(Sg::L([a.0 .0, a.0 .1, b.0 .0, b.0 .1]));
+            }
+            i += 1;
+        } else {
+            let c = anchors[(first_on + i + 2) % m];
+            segs.push(Sg::Q([a.0 .0, a.0 .1, b.0 .0, b.0 .1, c.0 .0, c.0 .1]));
+            i += 2;
+        }
+    }
+    segs
+}
+
+fn sg_close(a: &Sg, b: &Sg, tol: f64) -> bool {
+    match (a, b) {
+        (Sg::L(x), Sg::L(y)) => x.iter().zip(y).all(|(p, q)| (p - q).abs() <= tol),
+        (Sg::Q(x), Sg::Q(y)) => x.iter().zip(y).all(|(p, q)| (p - q).abs() <= tol),
+        _ => false,
+    }
+}
+fn sg_cyclic_equal(a: &[Sg], b: &[Sg], tol: f64) -> bool {
+    a.len() == b.len() && (a.is_empty() || (0..a.len()).any(|r| (0..a.len()).all(|i| sg_close(&a[i], &b[(i + r) % b.len()], tol))))
+}
+
+fn curve_json(f: &FontSpec, on: &[bool], loc: &[i16], style: &str) -> Value {
+    let mut v = font_json(f, loc, style);
+    v["kind"] = json!("curve");
+    v["on"] = json!(on);
+    v
+}
+
+fn check_curve_font(run: &Run, f: &FontSpec, on: &[bool], locs: &[Vec<i16>], l: &mut Local) {
+    if let Err(p) = guard(|| check_curve_font_inner(run, f, on, locs, l)) {
+        run.violation(
+            &format!("c5: panic while reading / drawing a built font: {} in {}", p.kind(), p.site()),
+            &format!("{} ({}:{})", p.message, p.file, p.line),
+            curve_json(f, on, &[], "panic"),
+        );
+    }
+}
+
+fn check_curve_font_inner(run: &Run, f: &FontSpec, on: &[bool], locs: &[Vec<i16>], l: &mut Local) {
+    let g = &f.glyph;
+    let n = g.coords.len();
+    let bytes = match build_var_font_with(f, Some(on)) {
+        Ok(b) => b,
+        Err(e) => {
+            run.violation("c5: variable font cannot be built", &e, curve_json(f, on, &[], "build"));
+            return;
+        }
+    };
+    let mut all = g.coords.clone();
+    all.extend([(0, 0), (f.advance as i64, 0), (0, 0), (0, 0)]);
+    let Ok(gv) = build_gvar(std::slice::from_ref(g), f.axis_count) else { return };
+    let Ok(rg) = rgvar::Gvar::read(FontData::new(&gv)) else {
+        run.violation("c5: compiled gvar does not parse", "", curve_json(f, on, &[], "parse"));
+        return;
+    };
+    let dec = match decode_glyph(&rg, 0, n + 4, f.axis_count as usize) {
+        Ok(d) => d,
+        Err(e) => {
+            run.violation("c5: glyph variation data unreadable", &e, curve_json(f, on, &[], "decode"));
+            return;
+        }
+    };
+    let inferred: Vec<Vec<(R, R)>> = dec.iter().map(|d| infer(&all, &g.ends, &d.explicit)).collect();
+    let Ok(font) = FontRef::new(&bytes) else {
+        run.violation("c5: built font does not parse", "", curve_json(f, on, &[], "parse"));
+        return;
+    };
+    let Some(og) = font.outline_glyphs().get(GlyphId::new(0)) else {
+        run.violation("c5: no outline for glyph 0", "", curve_json(f, on, &[], "parse"));
+        return;
+    };
+    for loc in locs {
+        l.evals += 1;
+        l.trans += 2;
+        let coords: Vec<F2Dot14> = loc.iter().map(|b| F2Dot14::from_bits(*b)).collect();
+        let scalars: Vec<R> = g.tuples.iter().zip(dec.iter()).map(|(t, d)| exact_scalar(&d.eff, &t.region, loc)).collect();
+        let active = scalars.iter().filter(|s| s.n != 0).count();
+        // model: default + sum(scalar x full delta) per point; contour structure from the original flags
+        let pts: Vec<(f64, f64)> = (0..n)
+            .map(|i| {
+                let mut ex = R::int(all[i].0 as i128);
+                let mut ey = R::int(all[i].1 as i128);
+                for (t, s) in scalars.iter().enumerate() {
+                    if s.n != 0 {
+                        ex = ex.add(s.mul(inferred[t][i].0));
+                        ey = ey.add(s.mul(inferred[t][i].1));
+                    }
+                }
+                (ex.to_f64(), ey.to_f64())
+            })
+            .collect();
+        let mut want: Vec<Vec<Sg>> = vec![];
+        let mut start = 0;
+        for &e in &g.ends {
+            want.push(model_segments(&pts[start..=e], &on[start..=e]));
+            start = e + 1;
+        }
+        for (style_name, style) in [
+            ("freetype", skrifa::outline::pen::PathStyle::FreeType),
+            ("harfbuzz", skrifa::outline::pen::PathStyle::HarfBuzz),
+        ] {
+            let mut pen = PathPen::default();
+            let settings = DrawSettings::unhinted(Size::unscaled(), LocationRef::new(&coords)).with_path_style(style);
+            match guard(|| og.draw(settings, &mut pen)) {
+                Ok(Ok(_)) => {}
+                Ok(Err(e)) => {
+                    run.violation(&format!("c5: draw fails ({style_name})"), &format!("{e}"), curve_json(f, on, loc, style_name));
+                    continue;
+                }
+                Err(p) => {
+                    run.violation(&format!("c5: draw panic: {} in {}", p.kind(), p.site()), &p.message, curve_json(f, on, loc, style_name));
+                    continue;
+                }
+            }
+            // whole-unit rounding of every point (FreeType style) moves a coordinate, and therefore an
+            // implied midpoint, by at most half a unit; a wrong start rule changes segment kinds
+            let tol = 0.5 + 0.01;
+            let ok = match drawn_segments(&pen.0) {
+                Some(got) => got.len() == want.len() && got.iter().zip(want.iter()).all(|(a, b)| sg_cyclic_equal(a, b, tol)),
+                None => false,
+            };
+            if !ok {
+                let first_off = !on[0];
+                let last_on = on[g.ends[0]];
+                let sparse = dec.iter().zip(scalars.iter()).any(|(d, s)| s.n != 0 && !d.all_points);
+                run.violation(
+                    &format!(
+                        "drawn curved outline differs from default + Σ scalar·delta with the contour structure of the original flags ({style_name}; contour starts {}-curve and ends {}-curve; {})",
+                        if first_off { "off" } else { "on" },
+                        if last_on { "on" } else { "off" },
+                        if sparse { "sparse tuple active" } else if active > 0 { "dense tuples only" } else { "default location" }
+                    ),
+                    &format!("location {loc:?}: drawn {:?}; model points {:?}", pen.0, pts),
+                    curve_json(f, on, loc, style_name),
+                );
+            }
+            let mut h = Fnv::new();
+            h.str("c5");
+            h.str(style_name);
+            for e in &pen.0 {
+                match e {
+                    PEl::M(x, y) | PEl::L(x, y) => {
+                        h.u64(x.to_bits());
+                        h.u64(y.to_bits());
+                    }
+                    PEl::Q(a, b, x, y) => {
+                        h.u64(a.to_bits());
+                        h.u64(b.to_bits());
+                        h.u64(x.to_bits());
+                        h.u64(y.to_bits());
+                    }
+                    _ => h.u64(7),
+                }
+            }
+            l.all.insert(h.finish());
+            if active > 0 {
+                l.nontrivial.insert(h.finish());
+            }
+        }
+    }
+}
+
+fn curve_family(run: &Run) {
+    let ring: Vec<(i64, i64)> = vec![(200, 100), (150, 187), (50, 187), (0, 100), (50, 13), (150, 13)];
+    // first / last flag patterns: off..on, off..off, on..off, on..on
+    let patterns: Vec<(&str, Vec<bool>)> = vec![
+        ("off..on", vec![false, true, false, true, false, true]),
+        ("off..off", vec![false, true, true, false, true, false]),
+        ("on..off", vec![true, false, true, false, true, false]),
+        ("on..on", vec![true, false, true, true, false, true]),
+    ];
+    let tents = tents_1axis();
+    // explicit-delta sets over the 6 points of a contour
+    let sets: Vec<(&str, Vec<usize>)> = vec![
+        ("all (dense)", vec![0, 1, 2, 3, 4, 5]),
+        ("last only", vec![5]),
+        ("first only", vec![0]),
+        ("first and last", vec![0, 5]),
+        ("middle only", vec![2, 3]),
+        ("all but the last", vec![0, 1, 2, 3, 4]),
+        ("all but the first", vec![1, 2, 3, 4, 5]),
+    ];
+    run.bound("c5.flag_patterns", json!(patterns.iter().map(|p| p.0).collect::<Vec<_>>()));
+    run.bound("c5.explicit_delta_sets", json!(sets.iter().map(|p| p.0).collect::<Vec<_>>()));
+    run.bound("c5.tuple_lists", json!("one tuple over each set; (set, dense), (dense, set), (set, last only), (set, middle only)"));
+    run.bound("c5.locations", json!([0.0, 0.25, 0.5, 1.0]));
+    let mut glyphs: Vec<(Vec<(i64, i64)>, Vec<usize>, Vec<bool>)> = vec![];
+    for (_, on) in &patterns {
+        glyphs.push((ring.clone(), vec![5], on.clone()));
+    }
+    // two contours: off..on followed by on..off (point numbers of the second contour are shifted)
+    {
+        let mut c = ring.clone();
+        c.extend(ring.iter().map(|p| (p.0 + 300, p.1 + 20)));
+        let mut on = patterns[0].1.clone();
+        on.extend(patterns[2].1.iter());
+        glyphs.push((c, vec![5, 11], on));
+    }
+    let mut fonts: Vec<(FontSpec, Vec<bool>)> = vec![];
+    for (coords, ends, on) in &glyphs {
+        let n = coords.len();
+        let mut all = coords.clone();
+        all.extend([(0, 0), (600, 0), (0, 0), (0, 0)]);
+        let make = |set: &Vec<usize>, region: &Region, salt: i16| -> TupleSpec {
+            let mut explicit: Vec<Option<(i64, i64)>> = vec![None; n + 4];
+            for c in 0..ends.len() {
+                for &p in set {
+                    let i = 6 * c + p;
+                    explicit[i] = Some(((8 * i as i16 + 4 + salt) as i64, (4 * i as i16 - 12 - salt) as i64));
+                }
+            }
+            let inf = infer(&all, ends, &explicit);
+            TupleSpec {
+                region: region.clone(),
+                deltas: (0..n + 4)
+                    .map(|i| match explicit[i] {
+                        Some((x, y)) => (x as i16, y as i16, true),
+                        None => ((inf[i].0.to_f64() + 0.5).floor() as i16, (inf[i].1.to_f64() + 0.5).floor() as i16, false),
+                    })
+                    .collect(),
+            }
+        };
+        let mut lists: Vec<Vec<TupleSpec>> = vec![];
+        for (_, s) in &sets {
+            lists.push(vec![make(s, &tents[0], 0)]);
+            lists.push(vec![make(s, &tents[0], 0), make(&sets[0].1, &tents[1], 40)]);
+            lists.push(vec![make(&sets[0].1, &tents[0], 40), make(s, &tents[1], 0)]);
+            lists.push(vec![make(s, &tents[0], 0), make(&sets[1].1, &tents[1], 16)]);
+            lists.push(vec![make(s, &tents[0], 0), make(&sets[4].1, &tents[1], 16)]);
+        }
+        for tuples in lists {
+            fonts.push((
+                FontSpec { axis_count: 1, advance: 600, glyph: GlyphSpec { coords: coords.clone(), ends: ends.clone(), tol2: 2, tuples } },
+                on.clone(),
+            ));
+        }
+    }
+    run.count("c5.fonts", fonts.len() as u64);
+    let locs: Vec<Vec<i16>> = vec![vec![0], vec![ONE / 4], vec![ONE / 2], vec![ONE]];
+    let locals: Vec<Local> = fonts
+        .par_iter()
+        .map(|(f, on)| {
+            let mut l = Local::new();
+            check_curve_font(run, f, on, &locs, &mut l);
+            l
+        })
+        .collect();
+    for l in locals {
+        l.merge(run, "c5");
+    }
 }
 
 // ---------------------------------------------------------------------------
@@ -2848,6 +3223,16 @@ fn body(run: &Run, replay: Option<&Value>) {
                 let gid = case["draw_glyph"].as_u64().unwrap_or(2) as u32;
                 check_cfont(run, &f, &[gid], &[loc], true, &mut l);
             }
+            Some("curve") => {
+                let f = FontSpec {
+                    axis_count: case["axis_count"].as_u64().unwrap() as u16,
+                    advance: case["advance"].as_u64().unwrap() as u16,
+                    glyph: glyph_from_json(&case["glyph"]),
+                };
+                let on: Vec<bool> = case["on"].as_array().unwrap().iter().map(|b| b.as_bool().unwrap()).collect();
+                let loc: Vec<i16> = case["location"].as_array().unwrap().iter().map(|x| x.as_i64().unwrap() as i16).collect();
+                check_curve_font(run, &f, &on, &[loc], &mut l);
+            }
             Some("draw") => {
                 let f = FontSpec {
                     axis_count: case["axis_count"].as_u64().unwrap() as u16,
@@ -2886,6 +3271,7 @@ fn body(run: &Run, replay: Option<&Value>) {
     family(run, "tent_family", || tent_family(run));
     family(run, "application_family", || application_family(run));
     family(run, "sparse_run_family", || sparse_run_family(run));
+    family(run, "curve_family", || curve_family(run));
     family(run, "composite_family", || composite_family(run));
     family(run, "nested_family", || nested_family(run));
 }
